@@ -109,10 +109,17 @@ def main(argv=None):
         # must flag, and every catalogued behaviour-preserving change it must
         # stay silent on, applied to scratch copies of the CURRENT tree.  Its
         # outcome is reported (and written to the evidence) but does not
-        # change the verdict on /repo.
+        # change the verdict on /repo.  Of the behaviour-preserving changes
+        # each property takes every fourth (offset by its number), so that a
+        # thorough run stays near a minute; `./check --selftest all` runs
+        # the whole matrix.
         from .selftest import runner
         extra = {}
-        runner.main(a.prop, a.jobs, quiet=True, repo=a.repo, results=extra)
+        share = None
+        if a.prop[1:].isdigit():
+            share = (int(a.prop[1:]), 4)
+        runner.main(a.prop, a.jobs, quiet=True, repo=a.repo, results=extra,
+                    benign_share=share)
     return run_property(a.prop, a.tier, seed, a.repo, extra=extra)
 
 
